@@ -10,7 +10,7 @@ Local Open Scope N_scope.
 Definition rq (r : req) : list N :=
   match r with
   | RUpdate rid _ _ _ | RGet rid _ | RReg rid _ _ | RMode rid _ _ | RName rid _ _ | RInfo rid _
-  | RPatch rid _ => [rid]
+  | ROpq rid _ _ => [rid]
   | RStream _ _ _ | RAck => []
   end.
 Definition rs (m : smsg) : list N := match msg_rid m with Some r => [r] | None => [] end.
@@ -149,7 +149,7 @@ Proof.
   - destruct (find_uni _ _); cbn; (split; [repeat split; reflexivity|]; split; [exact P|]; split; reflexivity).
   - destruct (find_uni _ _); cbn; (split; [repeat split; reflexivity|]; split; [exact P|]; split; reflexivity).
   - destruct (find_uni _ _); cbn; (split; [apply R_refl|]; split; [exact P|]; split; reflexivity).
-  - cbn. split; [apply R_refl|]. split; [exact P|]. split; reflexivity.
+  - cbn. split; [apply R_refl|]. split; [exact P|]. split; [reflexivity|]. destruct (opq_err _ _ _); reflexivity.
   - cbn. split; [apply R_refl|]. split; [exact P|]. split; reflexivity.
 Qed.
 
@@ -363,7 +363,7 @@ Proof.
   - pose proof (E_issue st c KInfo (fun rid => RInfo rid u)
        (EInfo c (st_next st) (Some E_NOTCONN) 0 None false) I (fun _ => eq_refl)) as H.
     destruct (issue _ _ _ _ _); exact H.
-  - pose proof (E_issue st c KSet (fun rid => RPatch rid u) (EDone c (st_next st) (Some E_NOTCONN)) I (fun _ => eq_refl)) as H.
+  - pose proof (E_issue st c KSet (fun rid => ROpq rid kd u) (EDone c (st_next st) (Some E_NOTCONN)) I (fun _ => eq_refl)) as H.
     destruct (issue _ _ _ _ _); exact H.
   - (* the client stops: no more obligation for it *)
     cbn [fst]. destruct I as (HB & HC & Hp). split; [|split; [|exact Hp]].
@@ -405,4 +405,17 @@ Proof.
   intros r Hin. destruct (HC c r Hin) as [H|H].
   - unfold completions. apply NoDup_count_occ'; [apply done_nodup|exact H].
   - unfold outs in H. rewrite Hb in H. contradiction.
+Qed.
+
+(* every request kind of the client API (DMX, fetch, register, merge mode, name, info and the
+   opaque kinds): the service's reply carries exactly the id of the request, streamed frames and
+   acks of pushes get no reply, in any state and for arguments of any size *)
+Lemma reply_carries_id st c r :
+  match snd (handle_req st c r) with Some m => rs m | None => [] end = rq r.
+Proof.
+  destruct r; cbn [handle_req];
+    try (destruct (find_uni _ _); reflexivity);
+    try (destruct on; destruct (find_uni _ _); reflexivity);
+    try reflexivity.
+  cbn. destruct (opq_err _ _ _); reflexivity.
 Qed.
